@@ -73,8 +73,8 @@ func PackTable(table [][]int) ( /*T*/ []int /*D*/, []int /*Check*/, []int) {
 		}
 	}
 	//Trim the zero element at the begin
-	for i := 0; i < len(ret); i++ {
-		if ret[i] != 0 {
+	for len(ret) > 0 {
+		if ret[0] != 0 {
 			break
 		}
 		ret = ret[1:]
